@@ -275,7 +275,114 @@ def run_shapes(prop, tier, deadline):
     return outcome
 
 
+# ------------------------------------------------------------------------------- C11, C12, C19
+PATHS_GROUPS = {"dir": 0, "und": 1, "dw": 2, "uw": 3}
+
+
+def paths_build(group):
+    return Build("paths_g%d" % group, "harness/paths.cpp", flags=["-O2", "-DGROUP=%d" % group])
+
+
+def J(cfg, source, **kw):
+    args = ["--config", cfg, "--source", source]
+    for k, v in kw.items():
+        if v is True:
+            args += ["--" + k]
+        else:
+            args += ["--" + k, str(v)]
+    return (cfg, args)
+
+
+def sharded(cfg, source, shards, **kw):
+    return [J(cfg, source, shard=k, shards=shards, **kw) for k in range(shards)]
+
+
+PATHS_PLANS = {
+    "C11": {
+        "quick": [J("dir", "e1", n=3), J("und", "e1", n=3), J("dir", "e2", n=4), J("und", "e2", n=5), J("und", "e2", n=6, noloops=True, maxedges=7),
+                  J("dir", "layered", maxv=12), J("und", "layered", maxv=12), J("dir", "grid", side=5), J("und", "grid", side=5), J("dir", "dense", maxn=7), J("und", "dense", maxn=7),
+                  J("dir", "perm", n=4, edges=5), J("und", "perm", n=4, edges=5)],
+        "thorough": [J("dir", "e1", n=3), J("und", "e1", n=3), J("dir", "e2", n=4), J("und", "e2", n=5), J("und", "e2", n=6, noloops=True),
+                     J("dir", "layered", maxv=14), J("und", "layered", maxv=14), J("dir", "grid", side=5), J("und", "grid", side=5), J("dir", "dense", maxn=8), J("und", "dense", maxn=8),
+                     J("dir", "perm", n=4, edges=6), J("und", "perm", n=4, edges=6), J("und", "perm", n=5, edges=6)] + sharded("dir", "e2", 8, n=5, noloops=True, maxedges=8),
+    },
+    "C12": {
+        "quick": [J("dw", "lists", n=3, weights="1,3"), J("dw", "e2", n=3, weights="0,1,3"), J("uw", "e2", n=3, weights="0,1,3"), J("dw", "e2", n=4, noloops=True, weights="0,1", maxedges=7),
+                  J("uw", "e2", n=4, weights="0,1"), J("uw", "perm", n=4, edges=6, weights="1,3,8"), J("dw", "perm", n=4, edges=5, weights="0,2"),
+                  J("dw", "dense", maxn=8, weight=0), J("uw", "dense", maxn=8, weight=0), J("dw", "ladder", maxl=26), J("uw", "ladder", maxl=26),
+                  J("dw", "layered", maxv=11, weight=0), J("uw", "layered", maxv=11, weight=1), J("dw", "grid", side=5, weight=1), J("uw", "grid", side=5, weight=0)],
+        "thorough": [J("dw", "lists", n=3, weights="0,1,3"), J("dw", "e2", n=3, weights="0,1,3,8"), J("uw", "e2", n=3, weights="0,1,3,8"), J("uw", "e2", n=4, weights="0,1,3"),
+                     J("uw", "perm", n=4, edges=6, weights="1,2,3,6,8"), J("uw", "perm", n=4, edges=5, weights="0,1,3,8"), J("dw", "perm", n=4, edges=5, weights="0,1,3"), J("dw", "perm", n=4, edges=6, weights="1,3"),
+                     J("dw", "dense", maxn=9, weight=0), J("uw", "dense", maxn=9, weight=0), J("dw", "ladder", maxl=30), J("uw", "ladder", maxl=30),
+                     J("dw", "layered", maxv=13, weight=0), J("uw", "layered", maxv=13, weight=1), J("dw", "grid", side=6, weight=1), J("uw", "grid", side=6, weight=0)] +
+                    sharded("dw", "e2", 12, n=4, noloops=True, weights="0,1,3") + sharded("uw", "e2", 4, n=5, noloops=True, weights="0,1,3"),
+    },
+    "C19": {
+        "quick": [J("dir", "layered", maxv=14), J("und", "layered", maxv=14), J("dir", "grid", side=6), J("und", "grid", side=6), J("dir", "dense", maxn=9), J("und", "dense", maxn=9),
+                  J("dir", "e2", n=4), J("und", "e2", n=5), J("dir", "e1", n=3), J("und", "e1", n=3),
+                  J("dw", "ladder", maxl=28), J("uw", "ladder", maxl=28), J("dw", "dense", maxn=9, weight=0), J("uw", "dense", maxn=9, weight=0),
+                  J("dw", "layered", maxv=12, weight=0), J("uw", "layered", maxv=12, weight=0), J("dw", "layered", maxv=12, weight=1), J("uw", "layered", maxv=12, weight=1),
+                  J("dw", "grid", side=6, weight=0), J("uw", "grid", side=6, weight=1), J("dw", "lists", n=3, weights="1,3"), J("dw", "e2", n=3, weights="0,1,3"), J("uw", "e2", n=3, weights="0,1,3"),
+                  J("uw", "perm", n=4, edges=6, weights="1,3,8"), J("dw", "e2", n=4, noloops=True, weights="0,1", maxedges=7)],
+        "thorough": [J("dir", "layered", maxv=16), J("und", "layered", maxv=16), J("dir", "grid", side=8), J("und", "grid", side=8), J("dir", "dense", maxn=10), J("und", "dense", maxn=10),
+                     J("dir", "e2", n=4), J("und", "e2", n=5), J("und", "e2", n=6, noloops=True), J("dir", "e1", n=3), J("und", "e1", n=3),
+                     J("dw", "ladder", maxl=40), J("uw", "ladder", maxl=40), J("dw", "dense", maxn=10, weight=0), J("uw", "dense", maxn=10, weight=0),
+                     J("dw", "layered", maxv=14, weight=0), J("uw", "layered", maxv=14, weight=0), J("dw", "layered", maxv=14, weight=1), J("uw", "layered", maxv=14, weight=1),
+                     J("dw", "grid", side=8, weight=0), J("uw", "grid", side=8, weight=1), J("dw", "lists", n=3, weights="0,1,3"), J("uw", "e2", n=4, weights="0,1,3"),
+                     J("uw", "perm", n=4, edges=6, weights="1,2,3,6,8")] + sharded("dw", "e2", 12, n=4, noloops=True, weights="0,1,3"),
+    },
+}
+PATHS_RULE = {
+    "C11": "case = (graph, source vertex); all destinations inside. Graphs: every reachable 3-vertex state (all neighbour-list orders), every digraph with loops on 4 vertices and undirected graph on 5 (6 loop-free) "
+           "in 2-3 insertion orders, every 5-edge subgraph of K4 in every insertion order, layered graphs (all width sequences in {1,2,3}), grids, complete graphs and cycles. Oracle: independent BFS distances and "
+           "exhaustive enumeration of all shortest paths on the model. Non-trivial = graph has an edge.",
+    "C12": "case = (weighted graph, source). Graphs: every ordered-neighbour-list digraph on 3 vertices, every weighted edge set on 3-4 vertices over the weight alphabet, K4 in every insertion order with every weight "
+           "assignment, zero-weight complete graphs/cycles, shortcut ladders, layered graphs, grids. Oracle: Bellman-Ford in integers; predecessor edge/sum clause; predecessor walk reaches the source. "
+           "Non-trivial = some vertex has two in-neighbours achieving its minimum (a tie).",
+    "C19": "case = (graph, source): number of getOutNeighbours calls made through a counting wrapper type vs. the bounds V, V+E, V+E+1; families with exponentially many shortest paths (layered, grids), zero-weight "
+           "complete graphs and cycles, shortcut ladders, plus the exhaustive small enumerations. Non-trivial = E > V.",
+}
+
+
+def run_paths(prop, tier, deadline):
+    import shutil
+    outcome = Outcome(prop, tier, "exploration")
+    plan = PATHS_PLANS[prop][tier]
+    builds = {g: paths_build(g) for g in set(PATHS_GROUPS[c] for c, _ in plan)}
+    built = build_all(list(builds.values()))
+    if compile_failures(outcome, built):
+        outcome.coverage = {"evaluations": 1, "distinct_nontrivial": 0, "rule": "harness did not compile", "samples": ["compile failure"]}
+        return outcome
+    workdir = os.path.join(build_dir(), "work-%s-%s-%d" % (prop, tier, os.getpid()))
+    jobs = [Job(builds[PATHS_GROUPS[cfg]], ["--prop", prop, "--tier", tier] + args, label=" ".join(args), timeout=deadline + 300, deadline=deadline) for cfg, args in plan]
+    run_jobs(jobs, built, workdir)
+    results = collect(outcome, jobs, built)
+    shutil.rmtree(workdir, ignore_errors=True)
+    per = {}
+    worst = {}
+    for r in results:
+        per[r.get("config", "?")] = {"graphs": r.get("counters", {}).get("graphs", 0), "cases": r.get("counters", {}).get("cases", 0), "exhaustive": r.get("exhaustive", True)}
+        for k, v in r.get("info", {}).items():
+            if k.startswith("worst_work:") and v:
+                worst[k[len("worst_work:"):]] = v
+    outcome.coverage = {
+        "evaluations": sum_counter(results, "cases"),
+        "distinct_nontrivial": sum_counter(results, "nontrivial_cases"),
+        "rule": PATHS_RULE[prop],
+        "samples": gather_samples(results, 8),
+        "graphs": sum_counter(results, "graphs"),
+        "all_shortest_path_enumerations_skipped_above_2000_paths": sum_counter(results, "allpaths_skipped"),
+        "configurations": per,
+    }
+    if prop == "C19":
+        outcome.coverage["worst_work_per_configuration"] = worst
+    outcome.assumptions = ["bounded scope as listed per configuration", "integer (dyadic) weights so that path sums are exact", "reference algorithms in harness/paths.cpp (BFS, Bellman-Ford, path enumeration) are the specification"]
+    return outcome
+
+
 PLANS = {}
+for _p in PATHS_PLANS:
+    PLANS[_p] = (lambda prop: (lambda tier, deadline: run_paths(prop, tier, deadline)))(_p)
 for _p in SHAPES_PLANS:
     PLANS[_p] = (lambda prop: (lambda tier, deadline: run_shapes(prop, tier, deadline)))(_p)
 PLANS["C07"] = run_c07
@@ -284,7 +391,7 @@ for _p in E1_PLANS:
 
 
 def all_builds():
-    bs = [e1_build(g) for g in range(8)] + [c07_build(g) for g in range(10)] + [shapes_build(g) for g in range(9)]
+    bs = [e1_build(g) for g in range(8)] + [c07_build(g) for g in range(10)] + [shapes_build(g) for g in range(9)] + [paths_build(g) for g in range(4)]
     return bs
 
 
